@@ -31,7 +31,7 @@ COMPONENTS = {
     "stub": ["GPU hardware / PTX code generation (Numba CUDASIM executes the kernel source on the CPU)"],
 }
 ASSUMPTIONS = [
-    "rounding budget 8*eps*max(L,8)^2*S^2 (S = max_k sum_n |w|(|x|+|trend|); M2 with S^4), calibrated >=100x above the worst observed error on the unchanged tree",
+    "rounding budget per statistic from per-segment amplitude budgets A_k = 16 eps G sum|w||x-trend| + 16 eps max(L,8) max|x_seg| sum|w|, G = Lb/max(|sin w|,1/Lb) (dsim/refmodel.py), >= 50x above the worst error observed on the unchanged tree",
     "the simulated prange models Numba parfor semantics (shared outer arrays, private body locals, atomic scalar reductions); LLVM-level races are out of reach",
     "longdouble direct DFT with Gram-Schmidt LS trend is the trusted reference",
 ]
